@@ -2,5 +2,5 @@ From Coq Require Import ExtrOcamlBasic.
 From MV Require Import Hs.HsModel Hs.HsSpec Hs.HsProofs.
 Extraction Language OCaml.
 Cd "../ocaml/gen".
-Extraction "m_c06.ml" step check13 gate12 init completeb prefix_okb negotiated legalb required kinds Nat.add N.add.
+Extraction "m_c06.ml" step check13 gate12 gate12d classify dstep init completeb prefix_okb negotiated legalb required kinds Nat.add N.add.
 Cd "../../coq".
